@@ -231,4 +231,5 @@ func genExtra() {
 	genC10()
 	genC11()
 	genC20()
+	genC02()
 }
